@@ -3849,6 +3849,9 @@ def exist_added_packages(suppressed: list[str], manager: BuildManager) -> bool:
             continue
         if os.path.basename(path) in ("__init__.py", "__init__.pyi"):
             return True
+        if manager.fscache.isdir(path):
+            # A namespace package (a directory without __init__ file) appeared.
+            return True
     return False
 
 
